@@ -293,6 +293,10 @@ let () =
            | ["bsreg"; k; t; h; c] -> Hashtbl.replace bs_table k (unhex t, unhex h, (if c = "-" then None else Some (unhex c))); "SET"
            | "bs" :: args -> do_bs args
            | "compile" :: args -> do_compile args
+           | ["inlrel"; ga; gb] ->
+             (* is gb the grammar ga with (some) includes replaced by the parenthesised body? (Subst.grel_b) *)
+             let a = Hashtbl.find grammars ga and b = Hashtbl.find grammars gb in
+             Printf.sprintf "INLREL\t%d\t%d" (if grel_b (S (S (grammar_size b))) a b then 1 else 0) (if fields_ok_std a then 1 else 0)
            | ["wf"; gid] -> if well_formed (Hashtbl.find grammars gid) then "WF\t1" else "WF\t0"
            | other :: _ -> "UNKNOWN\t" ^ other
            | [] -> "EMPTY"
